@@ -347,6 +347,13 @@ func (e *Engine) heapStore(st *State, root types.Type, prefix string, v Val, rid
 	for i, s := range sl {
 		k := heapKey(root, joinPath(prefix, s.Path))
 		m := e.heapGet(st, k, s.Sort)
+		if len(m.S) > 4096 {
+			// name a large memory term (it occurs twice in the updated map: unnamed chains of stores double in
+			// size with every store)
+			h := e.fresh(m.Sort, "H")
+			e.assume(Eq(h, m))
+			m = h
+		}
 		st.heap[k] = Store(m, rid, Store(Select(m, rid), idx, terms[i]))
 	}
 }
